@@ -102,6 +102,7 @@ func runC12(ctx *core.Ctx) {
 	ctx.Rule("P4", "index-entry failure: after the index file is opened, every non-nil error return is preceded by os.Remove of that entry's own name; and every os.Remove reachable from Put removes a name that the same function opened for writing (no other file is ever removed)", 2)
 	ctx.Rule("P5", "first pass: a seek or copy error in the hashing pass returns before the data-file copy or the index write is attempted", 1)
 	c12PutOrder(ctx, "P3")
+	expectedIDReadOnly(ctx, "P7")
 	ctx.Rule("P6", "digests reach the variable that is compared: a hash Sum call whose result is discarded is given x[:0] of an array x of at least the digest size, so that the digest lands in x; any other argument leaves x unchanged (all zero), the 'already present' comparison can then never succeed, and every Put of present content rewrites a shared data file in place, where a failing source truncates it under the entries that share it", 2)
 	for _, name := range []string{"(*Cache).put", "(*Cache).copyFile"} {
 		f := ctx.Need("P6", "cache", name)
